@@ -82,6 +82,15 @@ func NormResult(method, s string) string {
 	if arr, ok := v.([]interface{}); ok && len(arr) == 0 {
 		return "null"
 	}
+	if arr, ok := v.([]interface{}); ok && method == "workspace/symbol" {
+		// the server sorts workspace symbols itself (score, then file, position and name) and cuts
+		// the list: here the order of the answer is part of the result
+		for i := range arr {
+			arr[i] = canon(arr[i])
+		}
+		b, _ := json.Marshal(arr)
+		return string(b)
+	}
 	b, _ := json.Marshal(canon(v))
 	return string(b)
 }
